@@ -185,14 +185,20 @@ func genCondition(t *rapid.T, i int) (client.Condition, schedref.Sched) {
 		s.Start = rapid.IntRange(0, 1439).Draw(t, "start")
 		s.End = rapid.IntRange(0, 1439).Draw(t, "end")
 		c.Start, c.End = schedref.HHMM(s.Start), schedref.HHMM(s.End)
-		switch rapid.IntRange(0, 2).Draw(t, "filter") {
+		switch f := rapid.IntRange(0, 3).Draw(t, "filter"); f {
 		case 1:
 			c.Weekdays = make([]bool, 7)
 			for d := 0; d < 7; d++ {
 				c.Weekdays[d] = rapid.Bool().Draw(t, "weekday")
 				s.Weekdays[d] = c.Weekdays[d]
 			}
-		case 2:
+		case 2, 3:
+			if f == 3 {
+				// dates together with a weekday array in which no day is ticked (what
+				// a day that was ticked and unticked again leaves behind): no weekday
+				// filter, the dates still count
+				c.Weekdays = make([]bool, 7)
+			}
 			for k := rapid.IntRange(1, 2).Draw(t, "ndates"); k > 0; k-- {
 				d := schedref.DateString(refDay + int64(rapid.IntRange(-1, 2).Draw(t, "dateOff")))
 				c.Dates = append(c.Dates, d)
@@ -305,6 +311,9 @@ func genPoint(t *rapid.T) data.Point {
 		Value: float64(rapid.IntRange(-3, 4).Draw(t, "pvalue")) + rapid.SampledFrom([]float64{0, 0, 0, 0.5, 1e-7, -1e-7}).Draw(t, "pfrac"),
 		Text:  rapid.SampledFrom(texts).Draw(t, "ptext"),
 		Time:  time.Unix(1700000000, 0),
+		// whoever wrote the point -- the rule itself included (its own set-value
+		// action may write the very point a condition watches)
+		Origin: rapid.SampledFrom([]string{"", "", "someone", "rule1"}).Draw(t, "porigin"),
 	}
 }
 
